@@ -239,6 +239,8 @@ func (r *rig) evalSession(res *scResult, s *session, o *outcome, mustSucceed boo
 		kind := "session-idle-forever"
 		if o.actorDead {
 			kind = "actor-blocked"
+		} else if s.outSteps == 0 {
+			kind = "sync-start-not-accepted"
 		}
 		res.count("stalls", 1)
 		V("no-progress:"+kind, fmt.Sprintf("no final notification; the syncer emitted nothing and no reply was outstanding for %d consecutive driver ticks of %v (fetch timeout %v, hash timeout %v)", stallTicks, driverTick, fetchTimeout, hashTimeout))
@@ -656,7 +658,7 @@ func main() {
 	c.Set("timing", map[string]string{"fetch_timeout": fetchTimeout.String(), "hash_timeout": hashTimeout.String(), "sched_tick": schedTick.String(),
 		"stall_rule": fmt.Sprintf("%d silent ticks of %v", stallTicks, driverTick), "watchdog": watchdog.String()})
 	c.Finish("every recorded session history satisfies: ancestor on both chains (highest after a failed anchor comparison / full scan); AddBlock submissions contiguous from ancestor+1, each the child of the previous, never beyond target, no duplicate; exactly one final notification, success only with the target delivered; no stall; honest follow-up session completes exactly, also under previous-sequence messages",
-		c.Pick(100, 1000),
+		c.Pick(300, 2000),
 		"peers are modelled at the syncer's requester boundary (message.* values), i.e. what the p2p receivers would hand over, plus malformed variants they would filter",
 		"the chain service is a model: it connects a block iff its parent is on the model main chain; what the real chain does with a submitted block is out of scope",
 		"time is real (the syncer uses real timers): fetch timeout 200ms, hash fetcher timeout 500ms via verif hook; a stall is 50 consecutive 100ms driver ticks without any emission and without outstanding reply; the 60s wall watchdog only yields inconclusive",
